@@ -568,6 +568,14 @@ mod scalar {
     use ::glam_scalar as glam;
     include!("suite.rs");
 }
+/// the same algebra with `glam-assert` compiled in: the only documented precondition is det != 0, so every invertible
+/// matrix (either orientation, any determinant size) must still invert; a panic is reported as a failure
+#[cfg(not(feature = "core"))]
+mod asserting {
+    pub const VARIANT: &str = "simd+glam-assert";
+    use ::glam_assert as glam;
+    include!("suite.rs");
+}
 #[cfg(feature = "core")]
 mod core_simd {
     pub const VARIANT: &str = "core";
@@ -582,6 +590,8 @@ fn main() {
     {
         subs.extend(simd::subs(&args));
         subs.extend(scalar::subs(&args));
+        // only the sub-checks that never call inverse() on a singular matrix
+        subs.extend(asserting::subs(&args).into_iter().filter(|s| s.name.starts_with("real/") || s.name.starts_with("exhaustive")));
     }
     #[cfg(feature = "core")]
     {
